@@ -193,14 +193,25 @@ type SCTPParameter struct {
 	Value        []byte
 }
 
-func decodeSCTPParameter(data []byte) SCTPParameter {
+func decodeSCTPParameter(data []byte) (SCTPParameter, error) {
+	if len(data) < 4 {
+		return SCTPParameter{}, errors.New("invalid SCTP parameter length")
+	}
 	length := binary.BigEndian.Uint16(data[2:4])
+	if length < 4 || int(length) > len(data) {
+		return SCTPParameter{}, errors.New("invalid SCTP parameter length")
+	}
+	actual := roundUpToNearest4(int(length))
+	if actual > len(data) {
+		// The padding of the final parameter is not included in the chunk length.
+		actual = len(data)
+	}
 	return SCTPParameter{
 		Type:         binary.BigEndian.Uint16(data[0:2]),
 		Length:       length,
 		Value:        data[4:length],
-		ActualLength: roundUpToNearest4(int(length)),
-	}
+		ActualLength: actual,
+	}, nil
 }
 
 func (p SCTPParameter) Bytes() []byte {
@@ -438,7 +449,11 @@ func decodeSCTPInit(data []byte, p gopacket.PacketBuilder) error {
 	}
 	paramData := data[20:sc.ActualLength]
 	for len(paramData) > 0 {
-		p := SCTPInitParameter(decodeSCTPParameter(paramData))
+		param, err := decodeSCTPParameter(paramData)
+		if err != nil {
+			return err
+		}
+		p := SCTPInitParameter(param)
 		paramData = paramData[p.ActualLength:]
 		sc.Parameters = append(sc.Parameters, p)
 	}
@@ -578,7 +593,11 @@ func decodeSCTPHeartbeat(data []byte, p gopacket.PacketBuilder) error {
 	}
 	paramData := data[4:sc.Length]
 	for len(paramData) > 0 {
-		p := SCTPHeartbeatParameter(decodeSCTPParameter(paramData))
+		param, err := decodeSCTPParameter(paramData)
+		if err != nil {
+			return err
+		}
+		p := SCTPHeartbeatParameter(param)
 		paramData = paramData[p.ActualLength:]
 		sc.Parameters = append(sc.Parameters, p)
 	}
@@ -634,7 +653,11 @@ func decodeSCTPError(data []byte, p gopacket.PacketBuilder) error {
 	}
 	paramData := data[4:sc.Length]
 	for len(paramData) > 0 {
-		p := SCTPErrorParameter(decodeSCTPParameter(paramData))
+		param, err := decodeSCTPParameter(paramData)
+		if err != nil {
+			return err
+		}
+		p := SCTPErrorParameter(param)
 		paramData = paramData[p.ActualLength:]
 		sc.Parameters = append(sc.Parameters, p)
 	}
